@@ -148,6 +148,165 @@ def targets_equal(S, A, Sf, Af, T, expT):
 
 
 
+# ------------------------------------------------------------------ rewards that are distinct but closer than the float
+# grid near 1 resolves (0.1 vs 0.3-0.2, a few ulps apart, costs of order 1e-17 ...)
+ARITH_PAIRS = [(0.1, 0.3 - 0.2), (0.2, 0.6 - 0.4), (0.3, 0.1 + 0.2), (0.3, 0.9 - 0.6), (0.4, 0.7 - 0.3),
+               (0.15, 0.45 - 0.3), (0.05, 0.15 - 0.1), (0.45, 0.15 * 3), (0.7, 0.8 - 0.1), (0.9, 0.3 * 3)]
+TINY_UNITS = [1e-17, 2.0 ** -60, 1e-30, 1e-300, 5e-324]
+
+
+def near_tie_values(r, m):
+    """m scalars in [0,1]: a cluster of 2-3 values that are (mostly) distinct doubles less than 1e-16 apart, filled up with
+    well separated grid values, in random order"""
+    kind = r.choice(["arith", "ulps", "tiny", "ulps", "arith", "tiny"])
+    if kind == "arith":
+        a, b = r.choice(ARITH_PAIRS)
+        pool = [a, b] + ([float(np.nextafter(a, r.choice([0.0, 1.0])))] if r.random() < 0.3 else [])
+    elif kind == "ulps":
+        b = r.choice([r.uniform(0.01, 0.5), r.uniform(0.01, 0.5), r.uniform(0.01, 0.25), r.uniform(0.5, 0.99),
+                      r.randint(1, 15) / 16])
+        pool = []
+        for k in r.sample(range(-3, 4), r.randint(2, 3)):
+            v = b
+            for _ in range(abs(k)):
+                v = float(np.nextafter(v, 1.0 if k > 0 else 0.0))
+            pool.append(v)
+    else:
+        u = r.choice(TINY_UNITS)
+        pool = [u * k for k in r.sample(range(0, 8), r.randint(2, 3))]
+    pool = pool[:m]
+    while len(pool) < m:
+        pool.append(r.randint(0, 16) / 16 if r.random() < 0.7 else r.choice(pool))
+    r.shuffle(pool)
+    return kind, [min(1.0, max(0.0, float(v))) for v in pool]
+
+
+def distinct_actions(r, m):
+    """m distinct raw action rows: one-hot (width m) or distinct grid points (width 1-2)"""
+    if r.random() < 0.5:
+        return np.eye(m)[r.sample(range(m), m)].reshape(m, m)
+    da = r.randint(1, 2)
+    pts = r.sample([(i / 16, j / 16) for i in range(17) for j in range(17)] if da == 2 else [(i / 16,) for i in range(17)], m)
+    return np.array(pts, dtype=float).reshape(m, da)
+
+
+def near_tie_block(ctx):
+    """get_action on reward maps whose predicted rewards are distinct doubles less than 1e-16 apart (and exact ties, and
+    well separated values) carried by different categories: the property's statement, executed on the implementation --
+    the returned member is the FIRST member of the action space whose get_rewards value is the exact maximum / minimum"""
+    cov = ctx.cov
+    for i in range(ctx.scale(80, 800)):
+        r = gen.rng_for(ctx.seed, "C16-neartie", i)
+        name = "TD_FALCON" if i % 2 else "FALCON"
+        m = r.randint(2, 5)
+        kind, vals = near_tie_values(r, m)
+        Araw = distinct_actions(r, m)
+        da, ds_ = Araw.shape[1], r.randint(1, 2)
+        sp = [specs.elem_spec(r, "FuzzyART", d) for d in (ds_, da, 1)]
+        own_category = r.random() < 0.75
+        if own_category:
+            sp[1]["rho"] = 1.0                      # every distinct action is learned by a category of its own
+        dims = [2 * ds_, 2 * da, 2]
+        gam = list(r.choice(GAM3))
+        spec = {"cls": name, "state_art": sp[0], "action_art": sp[1], "reward_art": sp[2],
+                "gamma_values": gam, "channel_dims": dims}
+        if name == "TD_FALCON":
+            spec["td_alpha"], spec["td_lambda"] = r.choice(TDV), r.choice(TDV)
+        same_state = r.random() < 0.7
+        Sraw = gen.grid_rows(r, 1 if same_state else m, ds_)
+        S = gen.cc(np.repeat(Sraw, m, axis=0) if same_state else Sraw)
+        A = gen.cc(Araw)
+        R = gen.cc(np.array(vals, dtype=float).reshape(-1, 1))
+        rep = {"spec": spec, "near_tie_kind": kind, "S": S, "A": A, "R": R, "reward_values": vals}
+        try:
+            est = with_bounds(make(spec), ds_, da)
+            with quiet():
+                if name == "FALCON":
+                    how = r.choice(["fit", "partial_fit", "rowwise"])
+                    if how == "fit":
+                        est.fit(S, A, R)
+                    elif how == "partial_fit":
+                        est.partial_fit(S, A, R)
+                    else:
+                        for k in range(m):
+                            est.partial_fit(S[k:k + 1], A[k:k + 1], R[k:k + 1])
+                else:
+                    # single-transition episodes: the learning target is r itself (given as the reward row or as
+                    # single_sample_reward)
+                    how = r.choice(["reward-row", "single_sample_reward"])
+                    for k in range(m):
+                        est.partial_fit(S[k:k + 1], A[k:k + 1], R[k:k + 1],
+                                        single_sample_reward=None if how == "reward-row" else vals[k])
+            rep["trained_by"] = how
+        except Exception as e:
+            ctx.issue("violation", f"{name}.partial_fit:{exc_enum(e)}:near-tie-rewards", f"training raised {e!r}", rep)
+            continue
+        fa = est.fusion_art
+        ncat = len(fa.W)
+        cov.case((spec, S.tolist(), A.tolist(), vals, how), ncat >= 2)
+        # get_rewards = reward-channel centre of the predicted category, also for rewards of extreme magnitude
+        try:
+            with quiet():
+                got = est.get_rewards(S, A)
+            exp, C = expected_rewards(fa, S, A)
+            if got.shape != (m, 1) or not np.array_equal(got, exp):
+                ctx.issue("violation", f"{name}.get_rewards:!=reward-centre-of-predicted-category",
+                          f"get_rewards {got.tolist()} expected {exp.tolist()} (categories {C})", rep)
+            else:
+                cov.hit("near-tie:get_rewards==centre")
+        except Exception as e:
+            ctx.issue("violation", f"{name}.get_rewards:{exc_enum(e)}", f"raised {e!r}", rep)
+            continue
+        for t in range(3):
+            state = S[r.randrange(m)]
+            default = t == 2 and r.random() < 0.5
+            if default:
+                space = None
+            else:
+                order = r.sample(range(m), m)
+                space = Araw[order]
+                if r.random() < 0.25:                # a member may be listed twice
+                    space = np.vstack([space, space[r.randrange(m)][None, :]])
+            for opt in ("min", "max"):
+                rp = dict(rep, state=state, space=space, optimality=opt)
+                try:
+                    with quiet():
+                        act = est.get_action(state, action_space=None if default else space.copy(), optimality=opt)
+                        sp_used = np.array(fa.get_channel_centers(1)) if default else space
+                        prepared = gen.cc(sp_used)
+                        srep = np.repeat(state.reshape(1, -1), len(sp_used), axis=0)
+                        rew = np.asarray(est.get_rewards(srep, prepared), dtype=float).reshape(-1)
+                        cats = [int(c) for c in fa.predict(np.hstack([srep, prepared, 0.5 * np.ones((len(sp_used), 2))]),
+                                                           skip_channels=[2])]
+                except Exception as e:
+                    ctx.issue("violation", f"{name}.get_action:{exc_enum(e)}", f"raised {e!r}", rp)
+                    continue
+                rew_l = [float(v) for v in rew]
+                best = max(rew_l) if opt == "max" else min(rew_l)          # exact comparison of doubles
+                idx = rew_l.index(best)
+                close_before = [j for j in range(idx) if rew_l[j] != best and abs(rew_l[j] - best) < 1e-16]
+                close_after = [j for j in range(idx + 1, len(rew_l)) if rew_l[j] != best and abs(rew_l[j] - best) < 1e-16]
+                if not np.array_equal(np.asarray(act), sp_used[idx]):
+                    ctx.issue("violation", f"{name}.get_action:not-first-greedy"
+                              + (":rewards-distinct-but-<1e-16-apart" if close_before or close_after else ""),
+                              f"get_action(optimality={opt!r}) returned {np.asarray(act).tolist()} but the first {opt} of the "
+                              f"predicted rewards {[repr(v) for v in rew_l]} is member {idx} = {sp_used[idx].tolist()} "
+                              f"(categories {cats})", rp)
+                    continue
+                cov.hit(f"near-tie:get_action-{opt}-{'default' if default else 'explicit'}")
+                if rew_l.count(best) > 1:
+                    cov.hit(f"near-tie:get_action-{opt}-exact-tie")
+                for tag, js in (("listed-before", close_before), ("listed-after", close_after)):
+                    if js:
+                        cov.hit(f"near-tie:get_action-{opt}-runner-up-within-1e-16-{tag}")
+                        if any(cats[j] != cats[idx] for j in js):
+                            cov.hit(f"near-tie:get_action-{opt}-runner-up-within-1e-16-{tag}-other-category")
+                        if best < 0.5:
+                            cov.hit(f"near-tie:get_action-{opt}-runner-up-within-1e-16-{tag}-below-0.5")
+                        if 0 < best < 1e-15:
+                            cov.hit(f"near-tie:get_action-{opt}-rewards-of-order-1e-17")
+
+
 def prepare(ctx):
     """Translator tie (see gen_tie.py): the source of this slice is re-translated to Lean on every run
     (harness/artv/rtrans.py) and proved equal to the model the property theorems are about"""
@@ -382,6 +541,8 @@ def run(ctx):
                       [e_[2].tolist() for e_ in episodes]), ncat >= 2)
         if i < 2:
             cov.sample({"class": name, "spec": spec, "episodes": lens, "ncat": ncat})
+    # ---------------------------------------------------- reward maps with distinct rewards < 1e-16 apart
+    near_tie_block(ctx)
     # ---------------------------------------------------- model tie
     outs = run_driver(lines)
     for line, out, (kind, i, exp, rp) in zip(lines, outs, metas):
